@@ -9,7 +9,7 @@ from harness import core, gen, common
 
 ID = 'C10'
 LEAN_TARGETS = ['Props.C10']
-TIE_A = ['nb_add_eq', 'nb_sub_eq', 'nb_mul_eq', 'nb_xor_eq', 'nb_or_eq', 'nb_invert_eq', 'nb_neg_eq', 'nb_pos_eq', 'nb_pow_eq']
+TIE_A = ['nb_add_eq', 'nb_sub_eq', 'nb_mul_eq', 'nb_xor_eq', 'nb_or_eq', 'nb_invert_eq', 'nb_neg_eq', 'nb_pos_eq', 'nb_pow_eq', 'nb_call_eq', 'nb_reuse_eq']
 OBLIGATIONS = [
     'C10.add_scalar', 'C10.sub_scalar', 'C10.mul_scalar', 'C10.or_scalar', 'C10.pow_zero', 'C10.pow_pos', 'C10.call_single_grade',
     'C10.call_two_distinct_grades', 'C10.mag2_same', 'C10.count_set_bits_fallback',
